@@ -187,6 +187,9 @@ pub enum Op {
     RekeyRespManual { side: Side, k: u8 },
     SWrite { side: Side, nonce: u64, plen: usize, cap: Cap },
     SRead { side: Side, nonce: u64, msg: Msg, cap: Cap },
+    /// format!("{:?}") of whatever object the side holds (HandshakeState, TransportState and
+    /// StatelessTransportState implement Debug): an observation that must not change or use anything
+    DebugFmt { side: Side },
 }
 
 impl Op {
@@ -211,6 +214,7 @@ impl Op {
             | Op::RekeyInitManual { side, .. }
             | Op::RekeyRespManual { side, .. }
             | Op::SWrite { side, .. }
+            | Op::DebugFmt { side }
             | Op::SRead { side, .. } => *side,
         }
     }
@@ -667,6 +671,29 @@ impl Exec {
 
         // phase applicability: an op on an endpoint in the wrong phase cannot be issued (the type
         // system forbids it); it is skipped and recorded as such.
+        if let Op::DebugFmt { .. } = op {
+            let r = catch_unwind(AssertUnwindSafe(|| match &self.real[i] {
+                RealEnd::Hs(h) => format!("{h:?}").len(),
+                RealEnd::T(t) => format!("{t:?}").len(),
+                RealEnd::S(t) => format!("{t:?}").len(),
+                RealEnd::Gone => 0,
+            }));
+            rec.expect = Expect::Unit;
+            rec.real = match r {
+                Ok(_) => Real::Unit,
+                Err(p) => {
+                    let m = panic_msg(p);
+                    self.push(Cat::Panic, format!("{op:?}: {m}"));
+                    Real::Panic(m)
+                },
+            };
+            let post = self.getters(side);
+            if pre.public() != post.public() {
+                self.push(Cat::NoOp, format!("{op:?} changed public getters: {:?} -> {:?}", pre.public(), post.public()));
+            }
+            self.steps.push(rec);
+            return;
+        }
         let phase_ok = matches!(
             (&self.real[i], op),
             (RealEnd::Hs(_), Op::HsWrite { .. } | Op::HsRead { .. } | Op::SetPsk { .. } | Op::SetPskAlt { .. } | Op::ToTransport { .. } | Op::ToStateless { .. } | Op::RawSplit { .. } | Op::TryIntoTransport { .. } | Op::TryIntoStateless { .. })
@@ -701,6 +728,7 @@ impl Exec {
         }
 
         match op {
+            Op::DebugFmt { .. } => unreachable!("handled above"),
             Op::HsWrite { plen, cap, .. } => self.do_hs_write(side, *plen, cap, &mut rec),
             Op::HsRead { msg, cap, .. } => self.do_hs_read(side, msg, cap, &mut rec),
             Op::SetPsk { loc, klen, .. } => self.do_set_psk(side, *loc, *klen, &mut rec),
